@@ -18,13 +18,13 @@
                                                                                   (C13_structure)
    "Rig-mounted cameras come out at the world poses the rig implied": C13_poses_with_rigs says the pose that comes
    back is the one rigs_remove_inplace computed (Model/MRigs.remove_inplace, with the code's max_depth), and that no
-   rig id is left; that rigs_remove_inplace computes the composition along the rig chain is property C06's theorem
-   (Props/C06.v, remove_spec) and is not re-proved here. *)
+   rig id is left; C13_rig_mounted_world_pose composes it with property C06's theorem (Proofs/PRigs.remove_spec_gen:
+   rigs_remove_inplace computes the composition along the rig chain, any nesting depth <= max_depth). *)
 From Coq Require Import List Bool String ZArith QArith Lia.
 From KV Require Import Eqb AL Str.
 From KV.Gen Require Import Tcolmap.
 From KV.Model Require Import MQV MPose MRigs MColmap.
-From KV.Proofs Require Import PColmap.
+From KV.Proofs Require Import PColmap PRigs.
 Import ListNotations.
 Local Open Scope string_scope.
 Local Open Scope list_scope.
@@ -168,6 +168,26 @@ Section C13.
     unfold pose_of, pose_in. rewrite ET. split; destruct (entry_of d name); reflexivity.
   Qed.
 
+  (* rig-mounted cameras come out at the world poses the rig implied: for a camera below a posed rig [top] along the
+     path l = [(r1, g0); (r2, g1); ...] (camera in r1 with pose g0, r1 in r2 with pose g1, ..., the last one is top), the
+     pose that comes back is g0 o (g1 o (... o (pose of top))) -- any nesting depth up to max_depth.  The rig
+     hypotheses are those of property C06's theorem (Proofs/PRigs.remove_spec_gen), which this corollary composes with
+     C13_poses_with_rigs. *)
+  Corollary C13_rig_mounted_world_pose : forall d d' R T n, IR d = true -> RT d = ROk d' ->
+    d_rigs d = Some R -> d_traj d = Some T ->
+    wf2 R -> wf2 T -> one_parent R -> depth_le R n -> (n <= max_depth)%nat -> rigs_nonempty R ->
+    no_empty_timestamp T -> single_source R T ->
+    forall e l top w, In e (images_of d) -> is_rig R (icam e) = false -> path_up R (icam e) l top ->
+      lookup2 (its e) top T = Some w -> pose_of d' (iname e) = Some (comp_path pose comp l w).
+  Proof.
+    intros d d' R T n H E ER ET WfR WfT OP DL Le RN NE SS e l top w I NR PU Lw.
+    destruct (C13_poses_with_rigs d d' R T H E ER ET) as (T' & Rm & _ & HP).
+    destruct (remove_spec_gen pose comp R T n max_depth WfR WfT OP DL Le RN NE SS) as (T'' & Rm' & _ & _ & H3 & _).
+    rewrite Rm in Rm'. inversion Rm'; subst T''.
+    rewrite (HP (iname e) (in_map iname _ _ I)). unfold pose_in.
+    rewrite (entry_src d e (in_range_names comp ids _ _ _ MAXID d H) I). apply (H3 _ _ l top w); assumption.
+  Qed.
+
   Theorem C13_features : forall d d' name, IR d = true -> RT d = ROk d' ->
     feats_of (d_kp d') name = feats_of (d_kp d) name /\ feats_of (d_desc d') name = feats_of (d_desc d) name.
   Proof.
@@ -197,6 +217,7 @@ Print Assumptions C13_poses.
 Print Assumptions C13_poses_without_rigs.
 Print Assumptions C13_poses_with_rigs.
 Print Assumptions C13_poses_rigs_without_trajectories.
+Print Assumptions C13_rig_mounted_world_pose.
 Print Assumptions C13_features.
 Print Assumptions C13_matches.
 Print Assumptions C13_structure.
@@ -234,6 +255,32 @@ Proof.
   split; [vm_compute; reflexivity|]. eexists. split; [vm_compute; reflexivity|].
   repeat split; try (vm_compute; reflexivity).
   eexists. split; [vm_compute; reflexivity|]. repeat split; vm_compute; reflexivity.
+Qed.
+
+(* the rig hypotheses of C13_rig_mounted_world_pose hold on the same dataset, for the image "a.jpg" taken by "camA"
+   mounted on "rig" (checked with the deciders of Proofs/PRigs.v) *)
+Example C13_example_rig :
+  let g := ex_pose 0 1 0 0 1 0 0 in let w := ex_pose 0 0 1 0 0 0 7 in
+  let R : rigs pose := [("rig", [("camA", g)])] in
+  let T : traj pose := [(5%Z, [("camB", ex_pose 1 0 0 0 1 2 3)]); (9%Z, [("rig", w)])] in
+  d_rigs ex = Some R /\ d_traj ex = Some T
+  /\ wf2 R /\ wf2 T /\ one_parent R /\ depth_le R 1 /\ (1 <= max_depth)%nat /\ rigs_nonempty R
+  /\ no_empty_timestamp T /\ single_source R T
+  /\ In (9%Z, "camA", "a.jpg") (images_of ex) /\ is_rig R "camA" = false
+  /\ path_up R "camA" [("rig", g)] "rig" /\ lookup2 9%Z "rig" T = Some w.
+Proof.
+  intros g w R T.
+  assert (WR : wf2 R) by (apply wf2b_sound; vm_compute; reflexivity).
+  assert (WT : wf2 T) by (apply wf2b_sound; vm_compute; reflexivity).
+  split; [reflexivity|]. split; [reflexivity|]. split; [exact WR|]. split; [exact WT|].
+  split; [apply one_parent_check; [exact WR | vm_compute; reflexivity]|].
+  split; [apply (depth_le_rank R (fun d => if eqb d "rig" then 0%nat else 1%nat) 1 WR); vm_compute; reflexivity|].
+  split; [unfold max_depth; lia|].
+  split; [apply rigs_nonempty_check; vm_compute; reflexivity|].
+  split; [apply no_empty_check; vm_compute; reflexivity|].
+  split; [apply single_source_unmounted; [exact WR | exact WT | vm_compute; reflexivity]|].
+  split; [vm_compute; auto|]. split; [vm_compute; reflexivity|].
+  split; [|vm_compute; reflexivity]. eapply path_cons; [vm_compute; reflexivity | apply path_nil].
 Qed.
 
 (* ------------------------------------------------------------------ the behaviour before the repairs is refuted *)
